@@ -145,10 +145,12 @@ def search_transfer():
     wit, cases = [], 0
     from lian.core.prelim_semantics import P2PrelimSemanticAnalysis
     p = make_p2()
-    nodes = [SymbolDefNode(index=i, symbol_id=s, stmt_id=10 + i) for i, s in enumerate((1, 1, 2, 2, 3))]
-    for known, in_mask, k in itertools.product(range(0, 32, 5), range(32), range(5)):
+    # symbol 1 is a parameter: its declaration is the definition whose stmt_id equals the symbol id
+    nodes = [SymbolDefNode(index=i, symbol_id=s, stmt_id=10 + i) for i, s in enumerate((1, 1, 2, 2, 3))] + [SymbolDefNode(index=5, symbol_id=1, stmt_id=1)]
+    for known, in_mask, k in itertools.product(list(range(0, 64, 5)) + [63], range(0, 64, 3), range(6)):
         cases += 1
         fr = make_frame(nx.DiGraph(), [], {})
+        fr.method_def_use_summary.parameter_symbol_ids = {(1, 0)}
         for i, d in enumerate(nodes):
             if known >> i & 1:
                 p.update_current_symbol_bit(d, fr, set())
